@@ -214,14 +214,16 @@ Lemma loop_write : forall n ps a,
   let r := loop_store (m_shape (acc_m a)) n ps (base (acc_m a)) (acc_vals a) in
   let a' := snd (vario_loop true n ps a) in
   fst (vario_loop true n ps a) = fst (fst r) /\ base (acc_m a') = snd (fst r) /\ acc_vals a' = snd r /\
-  okvar (acc_m a') /\ same_meta (acc_m a) (acc_m a').
+  okvar (acc_m a') /\ same_meta (acc_m a) (acc_m a') /\
+  (m_store (acc_m a) <> [] -> m_store (acc_m a') <> []) /\
+  (forall p0 rest, ps = p0 :: rest -> any2 coordck_bad p0 (m_shape (acc_m a)) = false -> m_store (acc_m a') <> []).
 Proof.
   intros n ps. induction ps as [| p0 rest IH]; intros a Hok Hn Hb Hv.
-  - simpl. repeat split; auto; apply Hok.
+  - simpl. repeat split; auto; try apply Hok. intros; discriminate.
   - destruct Hok as [Hr [Hnf [He [Hsh Hst]]]].
     cbn [vario_loop loop_store]. rewrite coordck_fixed by auto.
     destruct (any2 coordck_bad p0 (m_shape (acc_m a))) eqn:B0.
-    + simpl. repeat split; auto.
+    + simpl. repeat split; auto. intros q r E. inversion E; subst. congruence.
     + destruct (Hb p0 (or_introl eq_refl) B0) as [Lp [L0 L1]].
       assert (Hv0 : length (firstn (Z.to_nat n) (acc_vals a)) = Z.to_nat n).
       { rewrite firstn_length. simpl length in Hv. lia. }
@@ -237,7 +239,7 @@ Proof.
       assert (Ok1 : okvar (acc_m a1)).
       { cbn [a1 acc_m]. unfold m1, okvar. cbn [set_store m_shape m_esz m_nofill m_store].
         repeat split; auto; try (right; rewrite Lw; reflexivity). }
-      destruct (IH a1 Ok1 Hn) as [I1 [I2 [I3 [I4 I5]]]].
+      destruct (IH a1 Ok1 Hn) as [I1 [I2 [I3 [I4 [I5 [I6 I7]]]]]].
       * intros p Hp Bp. apply (Hb p (or_intror Hp) Bp).
       * cbn [a1 acc_vals]. rewrite skipn_length. simpl length in Hv. lia.
       * cbn [a1 acc_m acc_vals] in I1, I2, I3, I4, I5.
@@ -245,7 +247,10 @@ Proof.
         { unfold m1. apply base_full; auto. }
         rewrite Bm1 in I1, I2, I3. unfold m1 in I1, I2, I3. cbn [set_store m_shape] in I1, I2, I3.
         fold m1 a1.
+        assert (NE : m_store m1 <> []).
+        { unfold m1. cbn [set_store m_store]. intro C. rewrite C in Lw. simpl in Lw. lia. }
         split; [exact I1 | split; [exact I2 | split; [exact I3 | split; [exact I4 |]]]].
+        split; [| split; [intros _; apply I6; exact NE | intros q r _ _; apply I6; exact NE]].
         unfold same_meta in *. unfold m1 in I5. cbn [set_store m_shape m_esz m_fillattr m_dfill m_nofill m_recsize] in I5.
         exact I5.
 Qed.
@@ -294,10 +299,15 @@ Qed.
 Lemma vario_write_pure : forall m start edges tr0 cs0 vals,
   okvar m -> (0 < length (m_shape m))%nat ->
   length start = length (m_shape m) -> length edges = length (m_shape m) ->
-  (forall ps n, vario_plan m start edges = Some (ps, n) -> (Z.to_nat n * length ps <= length vals)%nat) ->
+  (any2 coordck_bad start (m_shape m) = false ->
+   forall ps n, vario_plan m start edges = Some (ps, n) -> n <> 0 -> (Z.to_nat n * length ps <= length vals)%nat) ->
   let a' := snd (vario true start edges (mkAcc m tr0 cs0 vals)) in
   fst (vario true start edges (mkAcc m tr0 cs0 vals)) = fst (vario_pure m start edges vals) /\
-  base (acc_m a') = snd (vario_pure m start edges vals) /\ okvar (acc_m a') /\ same_meta m (acc_m a').
+  base (acc_m a') = snd (vario_pure m start edges vals) /\ okvar (acc_m a') /\ same_meta m (acc_m a') /\
+  (m_store m <> [] -> m_store (acc_m a') <> []) /\
+  (any2 coordck_bad start (m_shape m) = false ->
+   forall p0 rest n, vario_plan m start edges = Some (p0 :: rest, n) -> n <> 0 ->
+     any2 coordck_bad p0 (m_shape m) = false -> m_store (acc_m a') <> []).
 Proof.
   intros m start edges tr0 cs0 vals Hok Hn Hs Hc Hv.
   pose proof Hok as [Hr [Hnf [He [Hsh Hst]]]].
@@ -305,21 +315,27 @@ Proof.
   destruct (m_shape m) as [| d0 dr] eqn:Sh. simpl in Hn; lia.
   rewrite <- Sh in *. rewrite coordck_fixed by auto.
   destruct (any2 coordck_bad start (m_shape m)) eqn:B.
-  { cbn. repeat split; auto. }
+  { cbn. repeat split; auto. intros C; discriminate. }
   cbn [acc_m acc_tr acc_cells acc_vals]. rewrite Hr. cbn [andb].
   destruct (vario_plan m start edges) as [[ps n] |] eqn:P.
-  2:{ cbn. repeat split; auto. }
+  2:{ cbn. repeat split; auto. intros _ q r k C; discriminate. }
   destruct (n =? 0) eqn:N0.
-  { cbn. repeat split; auto. }
+  { cbn. repeat split; auto. intros _ q r k C Hk. inversion C; subst. apply Z.eqb_eq in N0. congruence. }
+  apply Z.eqb_neq in N0.
   destruct (plan_bounds m start edges ps n Hok Hn Hs Hc B P) as [Hn0 Hb].
-  pose proof (loop_write n ps (mkAcc m (tr0 ++ []) cs0 vals) Hok Hn0 Hb (Hv ps n eq_refl)) as L.
+  pose proof (loop_write n ps (mkAcc m (tr0 ++ []) cs0 vals) Hok Hn0 Hb (Hv eq_refl ps n eq_refl N0)) as L.
   cbn [acc_m acc_vals] in L. cbv zeta in L.
   destruct (vario_loop true n ps (mkAcc m (tr0 ++ []) cs0 vals)) as [ok a2].
-  cbn [fst snd] in L. destruct L as [L1 [L2 [L3 [L4 L5]]]].
+  cbn [fst snd] in L. destruct L as [L1 [L2 [L3 [L4 [L5 [L6 L7]]]]]].
+  assert (G : forall m2, m_store m2 = m_store (acc_m a2) ->
+            (m_store m <> [] -> m_store m2 <> []) /\
+            (false = false -> forall p0 rest k, Some (ps, n) = Some (p0 :: rest, k) -> k <> 0 ->
+               any2 coordck_bad p0 (m_shape m) = false -> m_store m2 <> [])).
+  { intros m2 E2. rewrite E2. split; auto. intros _ q r k C Hk Bq. inversion C; subst. apply (L7 q r); auto. }
   destruct ok; cbn [fst snd acc_m].
-  - destruct (m_numrecs (acc_m a2) <? hd 0 start + hd 0 edges); cbn [acc_m]; repeat split; auto; try apply L5.
-    all: try (apply L4).
-  - repeat split; auto; try apply L5; apply L4.
+  - destruct (m_numrecs (acc_m a2) <? hd 0 start + hd 0 edges); cbn [acc_m];
+      (split; [auto | split; [auto | split; [apply L4 | split; [apply L5 | apply G; reflexivity]]]]).
+  - split; [auto | split; [auto | split; [apply L4 | split; [apply L5 | apply G; reflexivity]]]].
 Qed.
 
 (* ---- block writes as single-cell updates ------------------------------------------------------------- *)
@@ -505,7 +521,10 @@ Lemma valid_write_pure : forall m start edges vals,
   length vals = Z.to_nat (prod edges) ->
   vario_pure m start edges vals =
     (true, fold_left updf (combine (map (idx (m_shape m)) (slab_cells start (ones start) edges)) vals) (base m)) /\
-  (forall ps n, vario_plan m start edges = Some (ps, n) -> (Z.to_nat n * length ps <= length vals)%nat).
+  (forall ps n, vario_plan m start edges = Some (ps, n) -> (Z.to_nat n * length ps <= length vals)%nat) /\
+  (exists p0 rest n, vario_plan m start edges = Some (p0 :: rest, n) /\ n <> 0 /\
+                     any2 coordck_bad p0 (m_shape m) = false) /\
+  any2 coordck_bad start (m_shape m) = false.
 Proof.
   intros m start edges vals Hok Hn Hs He Hf Hin Hv.
   pose proof Hok as [Hr [Hnf [Hesz [Hsh Hst]]]].
@@ -546,7 +565,14 @@ Proof.
   { rewrite Lps, Hv, S3, prod_app, prod_cons, Pn.
     pose proof (prod_pos _ Hepre). rewrite <- Z2Nat.inj_mul by lia. f_equal. lia. }
   split.
-  2:{ intros ps' n' P'. rewrite P in P'. inversion P'; subst ps' n'. lia. }
+  2:{ split. { intros ps' n' P'. rewrite P in P'. inversion P'; subst ps' n'. lia. }
+      split; auto.
+      pose proof (odometer_start spre epre ltac:(lia) Hepre) as St.
+      destruct ps as [| p0 rest] eqn:Eps.
+      { symmetry in Pp. apply map_eq_nil in Pp. rewrite Pp in St. contradiction. }
+      exists p0, rest, n. split; auto. split. lia.
+      assert (Hin0 : In p0 (map (fun p => p ++ sk :: zeros post) (odometer spre epre))) by (rewrite <- Pp; left; auto).
+      apply in_map_iff in Hin0. destruct Hin0 as [p' [<- Hp']]. apply Hacc. auto. }
   unfold vario_pure. rewrite B, P.
   replace (n =? 0) with false by (symmetry; apply Z.eqb_neq; lia).
   assert (LB : length (base m) = Ncells m) by (apply base_length; auto).
@@ -744,4 +770,271 @@ Proof.
     split; auto. rewrite I2. cbn [a1 acc_cells acc_m flat_map]. rewrite <- app_assoc. f_equal.
     rewrite map_app. f_equal. apply firstn_skipn_nth.
     rewrite (base_length (acc_m a) Hst). unfold Ncells. pose proof (prod_nonneg _ (shape_nonneg _ Hsh)). lia.
+Qed.
+
+(* ---- the simulation relation ------------------------------------------------------------------------- *)
+Definition agree (f : Z) (c x : cell) : Prop :=
+  match c with Val v => x = Val v | Fill | Unwr => x = Val f | Undef => True end.
+
+Lemma updf_length : forall l st, length (fold_left updf l st) = length st.
+Proof. induction l; simpl; intros; auto. rewrite IHl. unfold updf. apply upd_nth_length. Qed.
+
+Lemma assign_as_updates : forall shape coords vals cs,
+  assign shape cs coords vals = fold_left updf (combine (map (idx shape) coords) vals) cs.
+Proof.
+  intros shape coords. unfold assign. induction coords as [| c coords IH]; intros vals cs. reflexivity.
+  destruct vals as [| v vals]. reflexivity. cbn [map combine fold_left]. rewrite IH. reflexivity.
+Qed.
+
+(** the same updates with written values keep two contents in agreement *)
+Lemma fold_agree : forall f l cs st, length cs = length st ->
+  Forall (fun kv => exists v, snd kv = Val v) l ->
+  (forall i, agree f (nth i cs Undef) (nth i st Undef)) ->
+  forall i, agree f (nth i (fold_left updf l cs) Undef) (nth i (fold_left updf l st) Undef).
+Proof.
+  intros f l. induction l as [| [k x] l IH]; intros cs st Hl Hf Ha i. apply Ha.
+  inversion Hf as [| ? ? [v Hv] Hf']; subst. simpl in Hv. subst x.
+  cbn [fold_left]. apply IH; auto.
+  - unfold updf. cbn [fst snd]. rewrite !upd_nth_length. auto.
+  - intros j. unfold updf. cbn [fst snd]. rewrite !upd_nth_nth. rewrite Hl.
+    destruct ((j =? k)%nat && (k <? length st)%nat). reflexivity. apply Ha.
+Qed.
+
+Lemma fold_undef_keep : forall l cs i, Forall (fun kv => snd kv = Undef) l ->
+  nth i cs Undef = Undef -> nth i (fold_left updf l cs) Undef = Undef.
+Proof.
+  induction l as [| [k x] l IH]; intros cs i Hf H; auto.
+  inversion Hf; subst. simpl in H2. subst x. cbn [fold_left]. apply IH; auto.
+  unfold updf. cbn [fst snd]. rewrite upd_nth_nth. destruct ((i =? k)%nat && (k <? length cs)%nat); auto.
+Qed.
+
+Lemma fold_undef_in : forall l cs i, Forall (fun kv => snd kv = Undef) l ->
+  In i (map fst l) -> nth i (fold_left updf l cs) Undef = Undef.
+Proof.
+  induction l as [| [k x] l IH]; intros cs i Hf Hin. contradiction.
+  inversion Hf; subst. simpl in H1. subst x. cbn [fold_left map fst] in *.
+  destruct (Nat.eq_dec k i) as [-> | Ne].
+  - apply fold_undef_keep; auto. unfold updf. cbn [fst snd]. rewrite upd_nth_nth. rewrite Nat.eqb_refl.
+    destruct (i <? length cs)%nat eqn:E; simpl; auto. apply Nat.ltb_ge in E. apply nth_overflow. lia.
+  - destruct Hin as [C | Hin]; [congruence |]. apply IH; auto.
+Qed.
+
+Lemma fold_notin : forall l cs i, ~ In i (map fst l) -> nth i (fold_left updf l cs) Undef = nth i cs Undef.
+Proof.
+  induction l as [| [k x] l IH]; intros cs i Hn; auto.
+  cbn [fold_left map fst] in *. rewrite IH by (intro C; apply Hn; right; exact C).
+  unfold updf. cbn [fst snd]. rewrite upd_nth_nth.
+  destruct (i =? k)%nat eqn:E; auto. apply Nat.eqb_eq in E. subst. exfalso. apply Hn. left. reflexivity.
+Qed.
+
+Lemma combine_undef : forall (ks : list nat) (r : list (list Z)),
+  length r = length ks ->
+  Forall (fun kv : nat * cell => snd kv = Undef) (combine ks (map (fun _ => Undef) r)) /\
+  map fst (combine ks (map (fun _ => Undef) r)) = ks.
+Proof.
+  induction ks; destruct r; simpl; intros; try discriminate; auto.
+  destruct (IHks r) as [A B]; auto. split. constructor; auto. f_equal. auto.
+Qed.
+
+Lemma nth_map_cell : forall (g : cell -> cell) l i, g Undef = Undef -> nth i (map g l) Undef = g (nth i l Undef).
+Proof. intros. rewrite <- H at 1. apply map_nth. Qed.
+
+Lemma nth_not_default : forall (l : list cell) i, nth i l Undef <> Undef -> (i < length l)%nat.
+Proof. intros. destruct (Nat.lt_ge_cases i (length l)); auto. rewrite nth_overflow in H by lia. congruence. Qed.
+
+Lemma nth_repeat_lt : forall {A} (x d : A) n i, (i < n)%nat -> nth i (repeat x n) d = x.
+Proof. induction n; intros; [lia |]. destruct i; simpl; auto. apply IHn. lia. Qed.
+
+Record sim (a : arr) (m : mstate) : Prop := mkSim {
+  sim_shape : a_shape a = m_shape m;
+  sim_fixed : a_unlim a = false;
+  sim_fmode : a_fillmode a = true;
+  sim_ufill : a_userfill a = m_fillattr m;
+  sim_dfill : a_dfill a = m_dfill m;
+  sim_ok : okvar m;
+  sim_rank : (0 < length (m_shape m))%nat;
+  sim_len : length (a_cells a) = Ncells m;
+  sim_cells : forall i, agree (fill_of m) (nth i (a_cells a) Undef) (nth i (base m) Undef);
+  sim_fresh : a_touched a = false -> m_store m = [];
+  sim_empty : m_store m = [] -> Forall (fun c => c = Unwr \/ c = Undef) (a_cells a)
+}.
+
+Lemma fillval_fill_of : forall a m, a_userfill a = m_fillattr m -> a_dfill a = m_dfill m -> fillval a = fill_of m.
+Proof. intros. unfold fillval, fill_of. rewrite H, H0. reflexivity. Qed.
+
+(** established by SDcreate *)
+Lemma sim_init : forall shape nt, (0 < length shape)%nat -> Forall (fun d => 1 <= d) shape ->
+  (exists s, nt_size nt = Some s /\ 0 < s) ->
+  sim (s_init shape false (default_fill nt)) (m_init shape false nt).
+Proof.
+  intros shape nt Hn Hsh [s [Es Hs]].
+  assert (Hr : is_recvar (m_init shape false nt) = false).
+  { unfold is_recvar, m_init. cbn [m_shape]. destruct shape as [| d ds]; auto. inversion Hsh; subst.
+    unfold NC_UNLIMITED. apply Z.eqb_neq. lia. }
+  constructor; auto.
+  - unfold okvar, m_init. cbn [m_nofill m_esz m_shape m_store]. rewrite Es. repeat split; auto.
+  - unfold s_init, m_init, Ncells. cbn [a_cells m_shape]. unfold repeatZ. apply repeat_length.
+  - intros i. unfold s_init. cbn [a_cells]. unfold repeatZ.
+    destruct (Nat.lt_ge_cases i (Z.to_nat (prod shape))).
+    + rewrite nth_repeat_lt by auto. unfold agree, base, m_init, fullfill, Ncells. cbn [m_store m_shape].
+      rewrite nth_repeat_lt by auto. reflexivity.
+    + rewrite nth_overflow by (rewrite repeat_length; lia). exact I.
+  - intros _. unfold s_init. cbn [a_cells]. unfold repeatZ. apply Forall_forall. intros c Hc.
+    apply repeat_spec in Hc. left. auto.
+Qed.
+
+(* ---- SDwritedata preserves the relation ---------------------------------------------------------------- *)
+Lemma forallb_ones_true : forall (l : list Z), forallb (fun t => 1 <=? t) (ones l) = true.
+Proof. induction l; simpl; auto. Qed.
+
+Lemma fill_of_meta : forall m m', same_meta m m' -> fill_of m' = fill_of m.
+Proof. intros m m' [_ [_ [A [B _]]]]. unfold fill_of. rewrite A, B. reflexivity. Qed.
+
+Lemma Ncells_meta : forall m m', same_meta m m' -> Ncells m' = Ncells m.
+Proof. intros m m' [A _]. unfold Ncells. rewrite A. reflexivity. Qed.
+
+Lemma illformed_no_positions : forall m start count ps n,
+  okvar m -> (0 < length (m_shape m))%nat ->
+  length start = length (m_shape m) -> length count = length (m_shape m) ->
+  any2 coordck_bad start (m_shape m) = false ->
+  vario_plan m start count = Some (ps, n) -> n <> 0 ->
+  forallb (fun c => 1 <=? c) count = false -> ps = [].
+Proof.
+  intros m start count ps n Hok Hn Hs Hc B P N0 Hf.
+  pose proof Hok as [Hr [Hnf [He [Hsh Hst]]]].
+  pose proof (any2_false_nonneg _ _ Hs B) as Hnn.
+  assert (Hb : ((if is_recvar m then 1 else 0) < length (m_shape m))%nat) by (rewrite Hr; lia).
+  destruct (plan_decomp _ _ _ _ _ Hs Hc Hb Hnn P)
+    as [pre [dk [post [spre [sk [epre [ek [S1 [S2 [S3 [L2 [L3 [Hek [Pp Pn]]]]]]]]]]]]]].
+  assert (Hpost1 : Forall (fun d => 1 <= d) post).
+  { rewrite S1 in Hsh. apply Forall_app in Hsh. destruct Hsh as [_ F]. inversion F; auto. }
+  rewrite S3, forallb_app in Hf. cbn [forallb] in Hf.
+  assert (E1 : (1 <=? ek) = true) by (apply Z.leb_le; destruct (Z.eq_dec ek 0); [subst; lia | lia]).
+  assert (E2 : forallb (fun c => 1 <=? c) post = true).
+  { apply forallb_forall. intros x Hx. rewrite Forall_forall in Hpost1. apply Z.leb_le. auto. }
+  rewrite E1, E2 in Hf. simpl in Hf. rewrite andb_true_r in Hf.
+  rewrite Pp, odometer_slab, slab_empty; auto. unfold ones. rewrite map_length. auto. lia.
+Qed.
+
+Lemma vals_are_written : forall (ks : list nat) vals,
+  Forall (fun kv : nat * cell => exists v, snd kv = Val v) (combine ks (map Val vals)).
+Proof.
+  induction ks; destruct vals; simpl; auto. constructor; [eexists; reflexivity | apply IHks].
+Qed.
+
+Definition ret_ok (r : res) (rc : Z) : Prop := (r = ROk -> rc = 0) /\ (r = RFail -> rc = -1).
+
+Lemma sim_write : forall a m start stride count vals,
+  sim a m -> length start = length (m_shape m) -> length count = length (m_shape m) ->
+  length vals = Z.to_nat (prod count) ->
+  sim (snd (s_write a start (ones start) count vals)) (fst (sd_write m false start stride count vals)) /\
+  exists rc tr, snd (sd_write m false start stride count vals) = MRet rc tr /\
+                ret_ok (fst (s_write a start (ones start) count vals)) rc.
+Proof.
+  intros a m start stride count vals S Hs Hc Hv.
+  destruct S as [Sshape Sfix Sfm Suf Sdf Sok Srank Slen Scells Sfresh Sempty].
+  pose proof Sok as [Hr [Hnf [He [Hsh Hst]]]].
+  unfold sd_write. cbn [andb].
+  set (acc := mkAcc m [] [] (map Val vals)).
+  unfold s_write. unfold well_formed. rewrite forallb_ones_true, andb_true_r.
+  unfold inner_in. rewrite Sfix. rewrite Sshape.
+  destruct (forallb (fun c => 1 <=? c) count) eqn:WF; cbn [negb].
+  2:{ (* empty / ill-formed request *)
+    destruct (vario_write_pure m start count [] [] (map Val vals) Sok Srank Hs Hc) as [P1 [P2 [P3 [P4 [P5 P6]]]]].
+    { intros B ps n P N0. rewrite (illformed_no_positions m start count ps n Sok Srank Hs Hc B P N0 WF). simpl. lia. }
+    fold acc in P1, P2, P3, P4, P5, P6.
+    destruct (vario true start count acc) as [ok a'] eqn:EV. cbn [fst snd] in *.
+    split.
+    - unfold set_cells, nofill_unwr. rewrite Sfm. rewrite Sfix. cbn [andb].
+      constructor; cbn [a_shape a_unlim a_fillmode a_userfill a_dfill a_cells a_touched]; auto.
+      + rewrite Sshape. symmetry. apply P4.
+      + rewrite Suf. symmetry. apply P4.
+      + rewrite Sdf. symmetry. apply P4.
+      + destruct P4 as [E _]. rewrite E. auto.
+      + rewrite (Ncells_meta _ _ P4). auto.
+      + intros i. rewrite (fill_of_meta _ _ P4). rewrite P2.
+        destruct (write_changed m start count (map Val vals) i Sok Srank Hs Hc) as [E | E].
+        * rewrite E. apply Scells.
+        * rewrite (slab_empty start (ones start) count) in E; [| unfold ones; apply map_length | lia | exact WF].
+          simpl in E. contradiction.
+      + intros C. discriminate.
+      + intros E. apply Sempty. destruct (m_store m) eqn:St; auto. exfalso. apply P5; auto. discriminate.
+    - eexists. eexists. split. reflexivity. split; intros C; discriminate. }
+  assert (Hf : Forall (fun c => 1 <= c) count).
+  { apply Forall_forall. intros x Hx. rewrite forallb_forall in WF. apply Z.leb_le. auto. }
+  destruct (all4 dim_in start (ones start) count (m_shape m)) eqn:IN.
+  - (* valid request *)
+    destruct (valid_write_pure m start count (map Val vals) Sok Srank Hs Hc Hf IN) as [V1 [V2 [V3 V4]]].
+    { rewrite map_length. auto. }
+    destruct (vario_write_pure m start count [] [] (map Val vals) Sok Srank Hs Hc) as [P1 [P2 [P3 [P4 [P5 P6]]]]].
+    { intros B ps n P N0. apply V2. auto. }
+    fold acc in P1, P2, P3, P4, P5, P6.
+    destruct (vario true start count acc) as [ok a'] eqn:EV. cbn [fst snd] in *.
+    rewrite V1 in P1, P2. cbn [fst snd] in P1, P2. subst ok.
+    split.
+    + unfold set_cells. rewrite Sfix.
+      constructor; cbn [a_shape a_unlim a_fillmode a_userfill a_dfill a_cells a_touched]; auto.
+      * rewrite Sshape. symmetry. apply P4.
+      * rewrite Suf. symmetry. apply P4.
+      * rewrite Sdf. symmetry. apply P4.
+      * destruct P4 as [E _]. rewrite E. auto.
+      * rewrite app_nil_r, assign_as_updates, updf_length. unfold create_storage. rewrite map_length.
+        rewrite (Ncells_meta _ _ P4). auto.
+      * intros i. rewrite (fill_of_meta _ _ P4). rewrite P2. rewrite app_nil_r, assign_as_updates.
+        apply fold_agree.
+        -- unfold create_storage. rewrite map_length. rewrite (base_length m Hst). auto.
+        -- apply vals_are_written.
+        -- intros j. unfold create_storage. rewrite Sfm.
+           rewrite (nth_map_cell (fun x => match x with Unwr => Fill | y => y end)) by reflexivity.
+           specialize (Scells j). destruct (nth j (a_cells a) Undef); auto.
+      * intros C; discriminate.
+      * intros E. exfalso. destruct V3 as [p0 [rest [n [Q1 [Q2 Q3]]]]]. apply (P6 V4 p0 rest n Q1 Q2 Q3). auto.
+    + eexists. eexists. split. reflexivity. split; intros C; [reflexivity | discriminate].
+  - (* request reaching outside the shape *)
+    destruct (vario_write_pure m start count [] [] (map Val vals) Sok Srank Hs Hc) as [P1 [P2 [P3 [P4 [P5 P6]]]]].
+    { intros B ps n P N0.
+      (* enough values: the plan's positions times the block size is the number of selected cells *)
+      pose proof (any2_false_nonneg _ _ Hs B) as Hnn.
+      assert (Hb : ((if is_recvar m then 1 else 0) < length (m_shape m))%nat) by (rewrite Hr; lia).
+      destruct (plan_decomp _ _ _ _ _ Hs Hc Hb Hnn P)
+        as [pre [dk [post [spre [sk [epre [ek [S1 [S2 [S3 [L2 [L3 [Hek [Pp Pn]]]]]]]]]]]]]].
+      rewrite map_length, Hv, Pp, map_length, S3, prod_app, prod_cons, Pn.
+      rewrite S3 in Hf. apply Forall_app in Hf. destruct Hf as [F1 F2].
+      rewrite odometer_length; [| lia | eapply Forall_impl; [| exact F1]; simpl; intros; lia].
+      pose proof (prod_pos _ F1). inversion F2; subst. pose proof (prod_pos _ H3).
+      rewrite <- Z2Nat.inj_mul by nia. apply Nat.eq_le_incl. f_equal. lia. }
+    fold acc in P1, P2, P3, P4, P5, P6.
+    pose proof (vario_oob_fails true acc start count Hr Srank Hs Hc Hf IN) as OF.
+    destruct (vario true start count acc) as [ok a'] eqn:EV. cbn [fst snd] in *. subst ok.
+    set (region := filter (in_extent a) (slab_cells start (ones start) count)).
+    assert (Reg : region = filter (inb (m_shape m)) (slab_cells start (ones start) count)).
+    { unfold region. apply filter_ext. intros c. unfold in_extent, inb. rewrite Sfix, Sshape. reflexivity. }
+    destruct (combine_undef (map (idx (m_shape m)) region) region ltac:(rewrite map_length; auto)) as [CU1 CU2].
+    split.
+    + unfold set_cells, nofill_unwr. rewrite Sfm, Sfix.
+      constructor; cbn [a_shape a_unlim a_fillmode a_userfill a_dfill a_cells a_touched]; auto.
+      * rewrite Sshape. symmetry. apply P4.
+      * rewrite Suf. symmetry. apply P4.
+      * rewrite Sdf. symmetry. apply P4.
+      * destruct P4 as [E _]. rewrite E. auto.
+      * rewrite assign_as_updates, updf_length. rewrite (Ncells_meta _ _ P4). auto.
+      * intros i. rewrite (fill_of_meta _ _ P4). rewrite P2. rewrite assign_as_updates.
+        destruct (in_dec Nat.eq_dec i (map (idx (m_shape m)) region)) as [Hi | Hi].
+        -- rewrite fold_undef_in; [exact Logic.I | exact CU1 | rewrite CU2; exact Hi].
+        -- rewrite fold_notin by (rewrite CU2; auto).
+           destruct (write_changed m start count (map Val vals) i Sok Srank Hs Hc) as [E | E].
+           ++ rewrite E. apply Scells.
+           ++ rewrite <- Reg in E. contradiction.
+      * intros C; discriminate.
+      * intros E. assert (St : m_store m = []).
+        { destruct (m_store m) eqn:St; auto. exfalso. apply P5; auto. discriminate. }
+        specialize (Sempty St). rewrite assign_as_updates.
+        apply Forall_forall. intros c Hc'. apply In_nth with (d := Undef) in Hc'. destruct Hc' as [j [_ Hj]].
+        destruct (in_dec Nat.eq_dec j (map (idx (m_shape m)) region)) as [Hi | Hi].
+        -- rewrite fold_undef_in in Hj; auto. rewrite CU2. auto.
+        -- rewrite fold_notin in Hj by (rewrite CU2; auto). subst c.
+           destruct (Nat.lt_ge_cases j (length (a_cells a))).
+           ++ rewrite Forall_forall in Sempty. apply Sempty. apply nth_In. auto.
+           ++ rewrite nth_overflow by lia. auto.
+    + eexists. eexists. split. reflexivity. split; intros C; [discriminate | rewrite OF; reflexivity].
 Qed.
